@@ -144,4 +144,10 @@ example : parseBytes cfg {} (v5p ++ ipT ++ ipD ++ v9p) =
   have := C11_partition_joined cfg C02_generated_framing [[v5p, ipT], [ipD, v9p]] {} h
   simpa using this
 
+/-- **C11.0** (regenerated from the source on every run) the library declares no mutable global or per-thread state
+    (`static mut`, `thread_local!`, `OnceLock`/`OnceCell`/`lazy_static!`, `static … : Mutex|RwLock|Atomic…`), as the model assumes
+    by making `parseBytes` a function of `(config, parser state, buffer)`: a call can hand nothing to the next call except through the parser value, so splitting a buffer into calls cannot change what is decoded. -/
+theorem C11_no_global_state : Generated.noGlobals = true := by decide
+
+
 end Netflow.Props
